@@ -112,7 +112,7 @@ def h2(ctx, fx, H):
                     ctx.finding("C06.H2", fn, "append-recursive", "strings appended to the selection do not come from a recursive selection: %s" % vstr(v, 4), line=line)
             else:
                 ctx.finding("C06.H2", fn, "result-write:%s" % t.get("name"), "unexpected write to the selection result", line=line)
-    ctx.floor("C06.H2", "writes to selection results", npush, 8)
+    ctx.floor("C06.H2", "writes to selection results", npush, 4)
     nloops = 0
     for fn in H.sel_fns:
         ee = common.loop_early_exits(fn)
@@ -212,6 +212,24 @@ def selects_nothing(fx, H, fn, is_sel, assume, starts, stop, depth=0):
                     tolerated = allq
             if not tolerated:
                 return (b, nprune)
+        # out-parameter form: a selection function that is handed our result vector writes into it
+        if L is not None:
+            for b, t in fn.calls():
+                if b not in r or t.get("resolved") not in sel_names or depth >= 3:
+                    continue
+                if not any(imodel.receiver_local(fn, b, i) == L for i in range(len(t["args"]))):
+                    continue
+                c = fv.call_node(b)
+                G = sel_names[t["resolved"]]
+                ks = [i + 1 for i, a in enumerate(c.kids) if is_sel(a)]
+                ok_ = False
+                if len(ks) == 1:
+                    k = ks[0]
+                    bad2, np2 = selects_nothing(fx, H, G, lambda x, k=k: _is_param(x, k), assume, [0], [], depth + 1)
+                    ok_ = bad2 is None and np2 > 0
+                    nprune += np2
+                if not ok_:
+                    return (b, nprune)
     return (None, nprune)
 
 
